@@ -29,6 +29,7 @@ def check(ctx):
     ctx.rule("R1", "token text is emitted verbatim: _render_token returns only tok.string, a source slice, the documented brace re-escape or the comment lstrip", floor=4)
     ctx.rule("R2", "no content-changing string operation is applied to the joined text in regions that can lie inside a token", floor=1)
     ctx.rule("R4", "between two words of a subprocess command the formatter neither creates nor removes a gap: every constant spacing decision is taken outside subprocess context, or agrees with the gap in the source (a gap separates two arguments, no gap joins them: `host:/path`, `a,b`, `if=/dev/zero`)", floor=8)
+    ctx.rule("R7", "a macro body is kept byte for byte: in _space_between no gap is *decided* before the macro-verbatim test (`_macro_until_depth > 0 or _macro_alias_line` -> the source's own text between the two tokens) - every return that can be reached while a macro body is being formatted is that verbatim text or the empty glue inside one token; a constant or computed gap (two spaces before a comment, an indent) returned ahead of the test rewrites the raw argument the macro receives", floor=3)
     ctx.rule("R5", "the formatter's text is decoded once: bytes it encodes itself are tokenized with that very encoding, not with one re-detected from a coding cookie inside the text", floor=1)
     ctx.rule("R6", "what the formatter remembers from one token to the next (indent step, line flags, depths) is computed from tokens, its own settings and constants - never from raw rows of the source text: a row can be a bracket continuation or lie inside a string, which only the tokenizer knows (an indent step read off such a row moves own-line comments further on every pass)", floor=15)
     ctx.rule("R3", "a file is rewritten only after format_source returned normally and changed the text; tokenizer errors become FormatError and are reported without writing", floor=5)
@@ -199,6 +200,7 @@ def check(ctx):
     ctx.ob("R3", f"{CL}:main", "a FormatError from one file is reported and counted, never propagated into a write", ok, key="main|format-error-handler")
     _spacing(ctx, co)
     _state_from_tokens_only(ctx)
+    _macro_body_verbatim(ctx)
     # ---- R5: encode(E) ... tokenize(bytes) re-detects the encoding from a PEP 263 cookie; the text was decoded already
     it = co.func("_Formatter._iter_tokens")
     encs = [c for c in calls_in(it) if last_attr(c) == "encode"]
@@ -462,6 +464,32 @@ def _verbatim(e, defs, RAW, depth=0):
                 return False
         return True
     return False
+
+
+def _macro_body_verbatim(ctx):
+    """R7: what _space_between can answer while a macro body is being formatted."""
+    co = ctx.repo.module(CO)
+    sb = co.func("_Formatter._space_between")
+    st = f"{CO}:_Formatter._space_between"
+    cfg = CFG(sb)
+    tests = [n for n in cfg.nodes if n.kind == "if" and any(isinstance(x, ast.Attribute) and x.attr.startswith("_macro") for x in ast.walk(n.ast.test)) and any(isinstance(r, ast.Return) and r.value is not None and isinstance(r.value, ast.Call) and (call_name(r.value) or "").endswith("_raw_between") for b in n.ast.body for r in ast.walk(b))]
+    if len(tests) != 1:
+        raise AnalysisError(f"{st}: expected one macro-verbatim test (`if <macro state>: return self._raw_between(..)`), found {len(tests)}")
+    mt = tests[0]
+    flags = {x.attr for x in ast.walk(mt.ast.test) if isinstance(x, ast.Attribute) and x.attr.startswith("_macro")}
+    ctx.ob("R7", st, f"the macro-verbatim test reads the macro state ({sorted(flags)}) and answers with the source's own text", len(flags) >= 2, key="space_between|macro-test-shape", where=loc(mt.ast), detail=None if len(flags) >= 2 else "function macros (depth) and alias macros (line flag) are both verbatim")
+    # everything reachable without taking the 'not in a macro body' way out of the test
+    seen = cfg.reach([cfg.entry], skip_edge=lambda a, b, label: a is mt and label == "false")
+    n = 0
+    for r in [x for x in seen if x.kind == "stmt" and isinstance(x.ast, ast.Return)]:
+        v = r.ast.value
+        if v is not None and isinstance(v, ast.Call) and (call_name(v) or "").endswith("_raw_between"):
+            continue
+        n += 1
+        glue = v is not None and isinstance(v, ast.Constant) and v.value == ""
+        ctx.ob("R7", st, f"`{short(r.ast, 40)}` ahead of the macro-verbatim test only glues (inside one token / the bang marker)", glue, key=f"space_between|gap-decided-inside-macro-body|{unparse(v)[:30] if v is not None else 'None'}", where=loc(r.ast), detail=None if glue else "reached while a macro body is being formatted: the gap it returns replaces the source's own text inside the raw macro argument")
+    if n == 0:
+        raise AnalysisError(f"{st}: no decision ahead of the macro-verbatim test (the f-string glue is expected)")
 
 
 def _state_from_tokens_only(ctx):
